@@ -9,7 +9,7 @@ META = dict(
     note='Conflict marker files are decoded with jj\'s own parser (C05 covers that pair); EOL modes are covered by C29, not here; exec policy "ignore" is compared modulo the exec bit on disk. Bounded: 6-path universe, 10 trees in the model checker (random trees in the I->S driver).',
     design='4 C24',
 )
-READY = False
+READY = True
 LEVEL = META["category"]
 
 
@@ -18,5 +18,5 @@ def run(ctx):
         ctx, "C24",
         mc_cfgs=ctx.q(["c24", "c24_xignore"], ["c24_thorough", "c24_xignore"]),
         neg_cfgs=[("neg_co_keep_dirs", "Inv_C24")],
-        gen_cfgs=[("gen_c24", ctx.q(250, 2000)), ("gen_c24_xignore", ctx.q(100, 800))],
-        n_random=ctx.q(300, 4000), focus="checkout")
+        gen_cfgs=[("gen_c24", ctx.q(250, 800)), ("gen_c24_xignore", ctx.q(100, 300))],
+        n_random=ctx.q(300, 2000), focus="checkout")
